@@ -380,7 +380,11 @@ func (p *Parser) parsePower() (IEvaluator, *Error) {
 	pw.power1 = power1
 
 	if p.Match(TokenSymbol, "^") != nil {
+		if err := p.deeper(1); err != nil {
+			return nil, err
+		}
 		power2, err := p.parsePower()
+		p.depth--
 		if err != nil {
 			return nil, err
 		}
@@ -396,6 +400,10 @@ func (p *Parser) parsePower() (IEvaluator, *Error) {
 }
 
 func (p *Parser) parseTerm() (IEvaluator, *Error) {
+	// (levels of nesting this function adds while it parses a chain of operands)
+	operands := 0
+	defer func() { p.depth -= operands }()
+
 	returnTerm := new(term)
 
 	factor1, err := p.parsePower()
@@ -405,6 +413,11 @@ func (p *Parser) parseTerm() (IEvaluator, *Error) {
 	returnTerm.factor1 = factor1
 
 	for p.PeekOne(TokenSymbol, "*", "/", "%") != nil {
+		// (one more operand: one more level of the tree this loop builds)
+		operands++
+		if err := p.deeper(1); err != nil {
+			return nil, err
+		}
 		if returnTerm.opToken != nil {
 			// Create new sub-term
 			returnTerm = &term{
@@ -433,6 +446,10 @@ func (p *Parser) parseTerm() (IEvaluator, *Error) {
 }
 
 func (p *Parser) parseSimpleExpression() (IEvaluator, *Error) {
+	// (levels of nesting this function adds while it parses a chain of operands)
+	operands := 0
+	defer func() { p.depth -= operands }()
+
 	expr := new(simpleExpression)
 
 	if sign := p.MatchOne(TokenSymbol, "+", "-"); sign != nil {
@@ -452,6 +469,11 @@ func (p *Parser) parseSimpleExpression() (IEvaluator, *Error) {
 	expr.term1 = term1
 
 	for p.PeekOne(TokenSymbol, "+", "-") != nil {
+		// (one more operand: one more level of the tree this loop builds)
+		operands++
+		if err := p.deeper(1); err != nil {
+			return nil, err
+		}
 		if expr.opToken != nil {
 			// New sub expr
 			expr = &simpleExpression{
@@ -490,7 +512,11 @@ func (p *Parser) parseRelationalExpression() (IEvaluator, *Error) {
 	}
 
 	if t := p.MatchOne(TokenSymbol, "==", "<=", ">=", "!=", "<>", ">", "<"); t != nil {
+		if err := p.deeper(1); err != nil {
+			return nil, err
+		}
 		expr2, err := p.parseRelationalExpression()
+		p.depth--
 		if err != nil {
 			return nil, err
 		}
@@ -517,12 +543,24 @@ func (p *Parser) parseRelationalExpression() (IEvaluator, *Error) {
 // expressions. Both operators associate to the left and `and` binds tighter than `or`,
 // so that `a and b or c` reads `(a and b) or c` (as in Django, Python and C).
 func (p *Parser) ParseExpression() (IEvaluator, *Error) {
+	// (every bracket, call argument, subscript and list item comes through here)
+	if err := p.deeper(1); err != nil {
+		return nil, err
+	}
+	operands := 0
+	defer func() { p.depth -= 1 + operands }()
+
 	expr, err := p.parseAndExpression()
 	if err != nil {
 		return nil, err
 	}
 
 	for p.PeekOne(TokenSymbol, "||") != nil || p.PeekOne(TokenKeyword, "or") != nil {
+		// (one more operand: one more level of the tree this loop builds)
+		operands++
+		if err := p.deeper(1); err != nil {
+			return nil, err
+		}
 		op := p.Current()
 		p.Consume()
 		expr2, err := p.parseAndExpression()
@@ -540,12 +578,21 @@ func (p *Parser) ParseExpression() (IEvaluator, *Error) {
 }
 
 func (p *Parser) parseAndExpression() (IEvaluator, *Error) {
+	// (levels of nesting this function adds while it parses a chain of operands)
+	operands := 0
+	defer func() { p.depth -= operands }()
+
 	expr, err := p.parseRelationalExpression()
 	if err != nil {
 		return nil, err
 	}
 
 	for p.PeekOne(TokenSymbol, "&&") != nil || p.PeekOne(TokenKeyword, "and") != nil {
+		// (one more operand: one more level of the tree this loop builds)
+		operands++
+		if err := p.deeper(1); err != nil {
+			return nil, err
+		}
 		op := p.Current()
 		p.Consume()
 		expr2, err := p.parseRelationalExpression()
